@@ -25,6 +25,7 @@ def h_roundtrip(c, r):
     g = c.int("segment", 0, 4)
     S = c.int("S", 0, max(0, 4 ** (r - 1) - 1)) if r >= 2 else 0
     ser = shapes.ser()
+    shapes.int_shims(c)
     cell = shapes.mkcell(f, g, S, r)
     fid = cell["origin"].id
     try:
@@ -48,7 +49,10 @@ def h_roundtrip(c, r):
     g2 = c.int("segment2", 0, 4)
     S2 = c.int("S2", 0, max(0, 4 ** (r - 1) - 1)) if r >= 2 else 0
     cell2 = shapes.mkcell(f2, g2, S2, r)
-    i2 = ser.serialize(cell2)
+    try:
+        i2 = ser.serialize(cell2)
+    except Exception:
+        return      # the same obligation as above, reported there for (f, g, S)
     samecell = sx.And(cell2["origin"].id == fid, S2 == S, (g2 == g) if r >= 1 else True)
     c.prove(sx.Implies(i2 == i, samecell), "distinct-cells-distinct-ids")
 
@@ -68,6 +72,7 @@ def h_too_large(c, r):
     lo = 4 ** (r - 1) if r >= 2 else 1
     S = c.int("S", lo, 2 ** 70)
     ser = shapes.ser()
+    shapes.int_shims(c)
     cell = shapes.mkcell(f, g, S, r)
     try:
         i = ser.serialize(cell)
@@ -125,7 +130,7 @@ def replay(cx):
     inp = cx["inputs"]
     p = cx["params"]
     r = p.get("r", inp.get("r"))
-    if lab in ("serialize-does-not-raise", "decode-does-not-raise", "id-in-[1,2^64)",
+    if lab in ("serialize-does-not-raise", "decode-does-not-raise", "id-in-[1,2^64)", "no-unexpected-exception",
                "get_resolution(id)==r", "deserialize(serialize(cell))==cell",
                "distinct-cells-distinct-ids"):
         script = _PRE + """
